@@ -6,6 +6,7 @@
 import DuckModel.Runner
 import DuckModel.Spec.Machine
 import DuckModel.Lemmas.RunnerLemmas
+import DuckModel.Props.C03Sdk
 
 namespace Duck
 open Duck.Spec
